@@ -316,7 +316,7 @@ reg("C12", "exploration",
                      "write_directories_equal": 50, "headers_equal": 1000, "boundary_twins_equal": 6}})
 
 reg("C13", "exploration",
-    "cases = (input, schedule): EVERY composition of n bytes (n <= 16 quick / 20 thorough, 2^(n-1) schedules each) for None-encoded "
+    "cases = (input, schedule): EVERY composition of n bytes (n <= 16 quick / 22 thorough, 2^(n-1) schedules each) for None-encoded "
     "directories on read and on write, sync and async (with Pending bit patterns); codec directories under every fixed chunk size, "
     "every two-part split and random compositions; headers under every fixed chunk 1..127 and every two-part split; whole archives "
     "(incl. leaf-spilling, 4 codecs) under fixed chunks {1,2,3,7,64,4096} and random schedules x {sync, async + Pending "
